@@ -20,6 +20,7 @@ import (
 	"unicode/utf8"
 
 	"github.com/Dash-Industry-Forum/livesim2/cmd/livesim2/app"
+	"github.com/Eyevinn/mp4ff/bits"
 	"github.com/Eyevinn/mp4ff/mp4"
 	"verifharness/lib"
 )
@@ -66,8 +67,18 @@ func initObs(fsys fs.FS, p string) (string, *mp4.TrexBox) {
 }
 
 // segObs observes a media segment file as the model's fobs.
+// decodeMP4 decodes with the slice reader (as the loader does); a panic inside mp4ff is an error here.
+func decodeMP4(data []byte) (f *mp4.File, err error) {
+	defer func() {
+		if r := recover(); r != nil {
+			err = fmt.Errorf("mp4ff panic: %v", r)
+		}
+	}()
+	return mp4.DecodeFileSR(bits.NewFixedSliceReader(data))
+}
+
 func segObs(data []byte, trex *mp4.TrexBox) string {
-	f, err := mp4.DecodeFile(bytes.NewReader(data))
+	f, err := decodeMP4(data)
 	if err != nil || len(f.Segments) != 1 {
 		return "FBad"
 	}
